@@ -42,8 +42,10 @@ structure Sim where
   hk : List HKind
   /-- a `step` was rejected: the script left the model's domain -/
   dead : Bool
+  /-- CQEs the simulated kernel posted since the log was last cleared -/
+  log : List (Nat × Bool × Res) := []
 
-def Sim.init (d : Drv) (cap : Nat) : Sim := ⟨KeyLife.init d cap, [], [], false⟩
+def Sim.init (d : Drv) (cap : Nat) : Sim := ⟨KeyLife.init d cap, [], [], false, []⟩
 
 def getAvail (sim : Sim) (fd : Nat) : Nat := sim.avail.getD fd 0
 
@@ -54,7 +56,10 @@ def setAvail (sim : Sim) (fd n : Nat) : Sim :=
 def ev (sim : Sim) (e : Event) : Sim :=
   if sim.dead then sim else
   match step Cfg.gen sim.st e with
-  | some s => { sim with st := s }
+  | some s =>
+    match e with
+    | .kPost id more r => { sim with st := s, log := sim.log ++ [(id, more, r)] }
+    | _ => { sim with st := s }
   | none => { sim with dead := true }
 
 def evs (sim : Sim) (es : List Event) : Sim := es.foldl ev sim
@@ -185,6 +190,18 @@ def withKey (sim : Sim) (id : String) (needAlive : Bool) (f : Nat → Op → Sim
     | none => (sim, "bad-op")
   | none => (sim, "bad-op")
 
+/-- A cancel that reaches io_uring's `Driver::cancel` with a full submission queue runs one `push_raw` round inside
+the call: submit, the kernel reacts, the completion queue is drained, then the AsyncCancel SQE is queued. The kernel's
+reaction is computed on a scratch copy and handed to the event as its `posts`; afterwards — same race as for an
+overflowing `push` — both sides poll to quiescence. -/
+def cancelLine (sim : Sim) (reaches : Bool) (mk : List (Nat × Bool × Res) → Event) : Sim :=
+  let overflow := decide (sim.st.drv = .iour) && reaches && !(decide (sim.st.sqLen < sim.st.cap)) && Cfg.gen.cancelPushRaw
+  if overflow then
+    let tmp := doSubmit { sim with log := [] }
+    let sim := ev { sim with avail := tmp.avail } (mk tmp.log)
+    settle sim
+  else ev sim (mk [])
+
 def exec (sim : Sim) (w : List String) : Sim × String :=
   match w with
   | ["push", k, fd] =>
@@ -242,8 +259,9 @@ def exec (sim : Sim) (w : List String) : Sim × String :=
       let out := match o.result with
         | some r => if !o.cancelled ∧ o.rc = 1 then s!"some:{showRes r}" else "none"
         | none => "none"
-      line (ev sim (.userCancel id)) out
-  | ["ccancel", id] => withKey sim id true fun id _ => line (ev sim (.cloneCancel id)) "none"
+      let reaches := !o.cancelled && !(decide (o.rc = 1) && o.result.isSome)
+      line (cancelLine sim reaches (.userCancel id)) out
+  | ["ccancel", id] => withKey sim id true fun id o => line (cancelLine sim (!o.cancelled) (.cloneCancel id)) "none"
   | ["drop", id] => withKey sim id false fun id _ => line (ev sim (.userDrop id)) "ok"
   | ["token", id] => withKey sim id true fun id _ => line (ev sim (.tokenRegister id)) "ok"
   | ["tcancel", id] =>
@@ -253,7 +271,7 @@ def exec (sim : Sim) (w : List String) : Sim × String :=
       | some o =>
         if !sim.st.alive then line sim "noproactor"
         else if o.weak = 0 then line sim "notoken"
-        else line (ev sim (.tokenCancel id)) (toString (cancelTokRet o))
+        else line (cancelLine sim (cancelTokRet o) (.tokenCancel id)) (toString (cancelTokRet o))
       | none => (sim, "bad-op")
     | none => (sim, "bad-op")
   | ["gate", id] =>
